@@ -294,15 +294,38 @@ def make_mem(kind: str) -> Any:
     return InMemoryStateStore(model_of(kind)())
 
 
-def drive(coro: Any) -> Any:
-    """run a coroutine that never really suspends (all store methods are await-free when the
-    lock is free)"""
-    try:
-        coro.send(None)
-    except StopIteration as e:
-        return e.value
-    coro.close()
-    raise RuntimeError("store coroutine suspended outside a scheduler")
+_DRIVE_LOOP: Any = None
+
+
+def drive_loop() -> Any:
+    """the loop on which set-up / read-back / sequential store calls run when the caller has none of its own"""
+    global _DRIVE_LOOP
+    if _DRIVE_LOOP is None or _DRIVE_LOOP.is_closed():
+        import atexit
+
+        from .sloop import SLoop
+
+        _DRIVE_LOOP = SLoop()
+        atexit.register(_close_drive_loop)
+    return _DRIVE_LOOP
+
+
+def _close_drive_loop() -> None:
+    global _DRIVE_LOOP
+    if _DRIVE_LOOP is not None and not _DRIVE_LOOP.is_closed():
+        _DRIVE_LOOP.discard_all()
+        _DRIVE_LOOP.close()
+    _DRIVE_LOOP = None
+
+
+def drive(coro: Any, loop: Any = None, allow_time: bool = True) -> Any:
+    """Run one store coroutine to its end as a real task on a scripted virtual-time event loop (`harness/sloop.py`):
+    a running loop, `current_task()` and timers exist, as they do for any caller of the stores, so the harness does
+    not depend on the store methods being await-free.  A coroutine that waits for a timer gets the virtual time it
+    asks for; one that waits for something nobody will deliver (a lock that is held) raises `sloop.Suspended`
+    (a RuntimeError).  `loop`: the caller's own SLoop when the store is (or will be) used by tasks of that loop
+    (asyncio primitives bind to the loop they first wait on)."""
+    return (loop if loop is not None else drive_loop()).drive(coro, allow_time=allow_time)
 
 
 def err_name(e: BaseException) -> str:
